@@ -1,5 +1,5 @@
 # replay of a bounded stand-in violation (C11): re-run native/c11_compilers.py
 import sys
-print("gaussian_merge n=5 gates=[('MZgate', (4, 3)), ('Rgate', (4,)), ('Vgate', (0,)), ('BSgate', (2, 4)), ('S2gate', (2, 3)), ('Dgate', (3,)), ('Kgate', (3,)), ('S2gate', (2, 1)), ('Sgate', (1,)), ('MZgate', (2, 1)), ('Dgate', (1,)), ('CKgate', (0, 1)), ('MZgate', (0, 1)), ('BSgate', (2, 4)), ('Rgate', (2,))]: with the opaque gates interpreted as fixed unitaries the compiled program [('Vgate', [0]), ('GaussianTransform', [1, 2, 3, 4]), ('Dgate', [1]), ('Dgate', [3]), ('CKgate', [0, 1]), ('Kgate', [3]), ('MZgate', [0, 1]), ('MeasureFock', [0, 1, 2, 3, 4])] computes something else (max difference 0.551)")
+print('gaussian_unitary: a program with Rgate(0.4).H compiles to a different transformation (dagger ignored)')
 print('REPLAY-VIOLATION')
 sys.exit(1)
